@@ -519,14 +519,6 @@ def _numpy_rejects(case, fn):
 
 
 def tag(case, f):
-    # Frame x Frame with block layouts that are neither block- nor reblock-compatible is evaluated on the
-    # object-dtype .values of both frames: Python scalar semantics (int % False raises) replace NumPy's
-    if f.kind == 'raised:ZeroDivisionError' and f.where.endswith('apply_binary_operator') and case.get('other') in ('frame', 'same'):
-        # NumPy never raises ZeroDivisionError on typed arrays: the evaluation ran on object arrays
-        return 'frame-binop-on-object-values-raises-zerodivision'
-    # same root, value form: the cell equals the operator evaluated at the consolidated row dtypes
-    if f.kind == 'value' and case.get('other') in ('frame', 'same') and '[consolidated-dtype-explains]' in f.detail:
-        return 'frame-binop-consolidated-values-dtype-promotion'
     # union/intersection/difference over labels mixing NumPy scalars with tuples: sorted() raises ValueError
     if f.kind == 'raised:ValueError' and case.get('kind') == 'mixed' and 'truth value' in f.detail:
         return 'set-op-sorted-valueerror-on-tuple-vs-scalar'
